@@ -21,7 +21,7 @@ property level and in the driver.
                    position, so this is the same list as "sort, then render" of the code.
 * `groupLines`   — `_gen_ch_lines`; `text` — `plain_text()` of the joined result.
 * `lex`/`parseV`/`read` — the specification side: a whitespace-skipping reader of the JSON-like
-                   syntax (strings without `"`, `\`, control characters; number tokens opaque).
+                   syntax (strings without `"`, `\`, control characters; numbers by the JSON grammar, kept as text).
 -/
 namespace PPrint
 
@@ -283,6 +283,40 @@ def isLetter (ch : Char) : Bool :=
 /-- what may follow a number or a keyword -/
 def isDelim (ch : Char) : Bool := isWs ch || ch = ',' || ch = ']' || ch = '}' || ch = ':'
 
+/-- states of the JSON number grammar `-? (0 | [1-9][0-9]*) (. [0-9]+)? ([eE] [+-]? [0-9]+)?` -/
+inductive NSt where
+  | start | minus | zero | int | dot | frac | e | esign | exp
+
+def nstep : NSt → Char → Option NSt
+  | .start, ch => if ch = '-' then some .minus else if ch = '0' then some .zero
+                  else if isDigit ch then some .int else none
+  | .minus, ch => if ch = '0' then some .zero else if isDigit ch then some .int else none
+  | .zero, ch => if ch = '.' then some .dot else if ch = 'e' || ch = 'E' then some .e else none
+  | .int, ch => if isDigit ch then some .int else if ch = '.' then some .dot
+                else if ch = 'e' || ch = 'E' then some .e else none
+  | .dot, ch => if isDigit ch then some .frac else none
+  | .frac, ch => if isDigit ch then some .frac else if ch = 'e' || ch = 'E' then some .e else none
+  | .e, ch => if ch = '+' || ch = '-' then some .esign else if isDigit ch then some .exp else none
+  | .esign, ch => if isDigit ch then some .exp else none
+  | .exp, ch => if isDigit ch then some .exp else none
+
+def nrun : NSt → List Char → Option NSt
+  | s, [] => some s
+  | s, ch :: r =>
+    match nstep s ch with
+    | some s' => nrun s' r
+    | none => none
+
+def naccept : NSt → Bool
+  | .zero | .int | .frac | .exp => true
+  | _ => false
+
+/-- the text is a JSON number (what `str()` prints for a finite int / float) -/
+def numOk (t : List Char) : Bool :=
+  match nrun .start t with
+  | some s => naccept s
+  | none => false
+
 def kwOf (c : Consts) (w : List Char) : Option Kw :=
   if w = c.tt then some .tt else if w = c.ff then some .ff else if w = c.nul then some .nul else none
 
@@ -321,7 +355,8 @@ def step (c : Consts) : LState → Char → Option (LState × List Tok)
     else none
   | .inNum acc, ch =>
     if numChar ch then some (.inNum (ch :: acc), [])
-    else closeWith (.num acc.reverse) ch
+    else if numOk acc.reverse then closeWith (.num acc.reverse) ch
+    else none
   | .inWord acc, ch =>
     if isLetter ch then some (.inWord (ch :: acc), [])
     else match kwOf c acc.reverse with
@@ -331,7 +366,7 @@ def step (c : Consts) : LState → Char → Option (LState × List Tok)
 def finish (c : Consts) : LState → Option (List Tok)
   | .idle => some []
   | .inStr _ => none
-  | .inNum acc => some [.num acc.reverse]
+  | .inNum acc => if numOk acc.reverse then some [.num acc.reverse] else none
   | .inWord acc =>
     match kwOf c acc.reverse with
     | some k => some [.kw k]
@@ -435,11 +470,6 @@ def toksEntries : Bool → List (List Char × J) → List Tok
 end
 
 /-! ## domain -/
-
-/-- text of a number as `str()` prints a finite int/float: a digit or `-`, then digits `+ - . e E` -/
-def numOk : List Char → Bool
-  | [] => false
-  | ch :: r => numStart ch && r.all numChar
 
 mutual
 /-- the quantifier of C11: strings without quote, backslash, control characters; finite numbers -/
